@@ -65,6 +65,17 @@ def systematic(tier):
             if not any(a['act'] == 'resume' for a in schedule) or not any(a['act'] == 'pause' for a in schedule):
                 continue
             cases.append({'program': program, 'schedule': schedule, 'opts': {}, 'origin': f'systematic:{name}'})
+        # alternating pause/play bursts at one position (each interruption still in flight when the next request arrives),
+        # with the wake-up before, after or one handle later
+        for pos in range(0, ticks + 1):
+            for repeats in (1, 2, 3):
+                for tail in ((), ('pause',), ('pause', 'play')):
+                    burst = ['pause', 'play'] * repeats + list(tail)
+                    for where in ('before', 'after', 'next'):
+                        schedule = [{'act': kind, 'at': pos} for kind in burst]
+                        wake = {'act': 'resume', 'at': pos + (1 if where == 'next' else 0)}
+                        schedule = [wake] + schedule if where == 'before' else schedule + [wake]
+                        cases.append({'program': program, 'schedule': schedule, 'opts': {}, 'origin': f'systematic:{name}:burst'})
     import itertools
     for n_futures, via in ((1, 'ret'), (2, 'call'), (2, 'both')):
         program = wc_program(n_futures, via)
